@@ -3,6 +3,8 @@ import FormulaicVerif.Spec.Wilkinson
 import FormulaicVerif.Proofs.ShuntComplete
 import FormulaicVerif.Proofs.C01
 import FormulaicVerif.Proofs.C01Grammar
+import FormulaicVerif.Proofs.ShuntSound
+import FormulaicVerif.Proofs.C01Intercept
 /-! # C01 — Formula strings denote exactly the documented Wilkinson term algebra
 
 Property theorems only (helpers: `Proofs/ShuntComplete.lean`, `Proofs/C01.lean`). They are about
@@ -11,13 +13,18 @@ the very definitions the correspondence engine `c01` runs (`Model/{Tokenize,Toke
 What is proved, for ALL inputs: the live operator table is the documented one (all 8 flag subsets);
 the shunting-yard returns the documented tree for every expression of the documented arithmetic
 grammar (`grammar_parses`: Sum/Prod/Inter/Pow/Atom levels, unbounded nesting and chains; via the more
-general `shunt_complete`); the token-level intercept insertion for one-sided formulas; sign-run collapsing keeps every other operator character in place and reduces
+general `shunt_complete`); conversely an accepted token list is never re-ordered, dropped from or
+duplicated (`shunt_preserves_tokens`: the in-order reading of the returned tree is the input token list
+without its brackets, each operator token replaced by the operators chosen for it; helpers in
+`Proofs/ShuntSound.lean`); the token-level intercept insertion for one-sided formulas and for formulas with
+`~` / `|` separators (every right-hand part, no left-hand part, `-1`/`+0` rewriting: C01.6c–i); sign-run collapsing keeps every other operator character in place and reduces
 each run by parity; the documented spelling identities hold on ordered term sets; the final ordering
 is a stable sort by interaction degree.
 
 FULL (unproved): `parse_eq_denote : WF f → Model.parseTerms cfg env (render f) = Spec.denoteFormula cfg f`
-for the whole grammar including `~`, `|`, intercept insertion and `.`. What is missing: the token-level
-intercept-insertion lemma and the evaluation-equals-denotation induction for structured values; these
+for the whole grammar including `~`, `|`, intercept insertion and `.`. What is missing: the
+evaluation-equals-denotation induction for structured values (the token-level intercept-insertion
+lemma is now C01.6c–i); these
 clauses are covered by the correspondence stream plus the independent reference evaluator of the
 documented semantics in `harness/parser_common.py` (`denote`), not by a theorem. -/
 namespace FormulaicVerif.Props.C01
@@ -171,5 +178,227 @@ theorem degree_order (ts : List Term) :
     (sortByDegree ts).Pairwise (fun a b => a.degree ≤ b.degree) ∧ (sortByDegree ts).Perm ts ∧
     ∀ d, (sortByDegree ts).filter (fun x => x.degree == d) = ts.filter (fun x => x.degree == d) :=
   Proofs.C01.sortByDegree_spec ts
+
+/-- C01.4  **An accepted token list is never re-ordered, dropped from, or duplicated.** Read the tree
+the shunting-yard returns from left to right (`ShuntSound.yield`: an infix operator between its two
+operands, a prefix operator before its operands, a postfix operator after them). The result is a
+*reading* of the input token list (`ShuntSound.Reads`): every token that is neither a bracket nor an
+operator appears as a leaf, exactly once, in the input order; the bracket tokens `(`, `[`, `)`, `]`
+vanish; and every operator token contributes, at its place and in order, exactly one enabled operator
+from each candidate group the resolver produced for it (one group normally, one per character when a
+sign-collapsed token such as `~--` is split). So whenever a formula is accepted, its tree is a
+bracketing of the very token sequence that was written — never of a different term sequence.
+For every token list and every operator table without an infix operator of arity 0 (`TableOk`;
+without it the statement is false: `Proofs.ShuntSound.cex_not_reads`). -/
+theorem shunt_preserves_tokens (tab : OpTable) (htab : Proofs.ShuntSound.TableOk tab)
+    (ts : List Tok) (a : Ast) (h : tokensToAst tab ts = .ok (some a)) :
+    Proofs.ShuntSound.Reads tab ts (Proofs.ShuntSound.yield a) :=
+  Proofs.ShuntSound.shunt_preserves_tokens tab htab ts a h
+
+/-- C01.4a  … in particular for the operator table the live `DefaultOperatorResolver` builds, for each
+of the 8 feature-flag subsets, … -/
+theorem shunt_preserves_tokens_default (twosided multipart multistage : Bool) (ts : List Tok) (a : Ast)
+    (h : tokensToAst (Gen.defaultTable twosided multipart multistage) ts = .ok (some a)) :
+    Proofs.ShuntSound.Reads (Gen.defaultTable twosided multipart multistage) ts
+      (Proofs.ShuntSound.yield a) :=
+  shunt_preserves_tokens _ (Proofs.ShuntSound.defaultTable_ok twosided multipart multistage) ts a h
+
+/-- C01.4b  … and for the table of the constraint parser's resolver. -/
+theorem shunt_preserves_tokens_constraint (ts : List Tok) (a : Ast)
+    (h : tokensToAst Gen.constraintTable ts = .ok (some a)) :
+    Proofs.ShuntSound.Reads Gen.constraintTable ts (Proofs.ShuntSound.yield a) :=
+  shunt_preserves_tokens _ Proofs.ShuntSound.constraintTable_ok ts a h
+
+/-- C01.4c  Consequence in functional form: the leaves of an accepted tree, left to right, are exactly
+the input tokens that are neither brackets nor operators, in the input order. -/
+theorem shunt_preserves_leaves (tab : OpTable) (htab : Proofs.ShuntSound.TableOk tab)
+    (ts : List Tok) (a : Ast) (h : tokensToAst tab ts = .ok (some a)) :
+    Proofs.ShuntSound.leavesOf (Proofs.ShuntSound.yield a) = ts.filter Proofs.ShuntSound.isAtomTok :=
+  Proofs.ShuntSound.shunt_preserves_leaves tab htab ts a h
+
+example : Proofs.ShuntSound.TableOk (Gen.defaultTable true true false) := by decide
+example : Proofs.ShuntSound.TableOk Gen.constraintTable := by decide
+
+private def tildeI : OpSpec :=
+  { symbol := "~", arity := 2, prec := -100, assoc := .none, fixity := .infix, structural := true,
+    disabled := false, ctx := .emptyCtx }
+private def soundToks : List Tok :=
+  [{ text := ['('], kind := some .context }, tA, { text := [')'], kind := some .context },
+   { text := ['~', '-', '-'], kind := some .operator },
+   { text := ['['], kind := some .context }, tB, { text := [']'], kind := some .context }]
+
+/-- non-vacuity: `(a) ~-- [b]` — brackets of both kinds and a sign-run operator token that the
+resolver collapses to `~+` and splits into two candidate groups — is accepted by the live two-sided
+table as `a ~ (+b)`; the tree reads `a ~ + b`, and the theorem says this is a reading of the seven
+input tokens (a concrete instance; the theorem itself is for all token lists) -/
+example : tokensToAst (Gen.defaultTable true true false) soundToks
+      = .ok (some (.node tildeI [.leaf tA, .node plusU [.leaf tB]]))
+    ∧ Proofs.ShuntSound.yield (.node tildeI [.leaf tA, .node plusU [.leaf tB]])
+      = [.tok tA, .op tildeI, .op plusU, .tok tB]
+    ∧ Proofs.ShuntSound.Reads (Gen.defaultTable true true false) soundToks
+        [.tok tA, .op tildeI, .op plusU, .tok tB] := by
+  have h1 : tokensToAst (Gen.defaultTable true true false) soundToks
+      = .ok (some (.node tildeI [.leaf tA, .node plusU [.leaf tB]])) := by rfl
+  have h2 : Proofs.ShuntSound.yield (.node tildeI [.leaf tA, .node plusU [.leaf tB]])
+      = [.tok tA, .op tildeI, .op plusU, .tok tB] := by rfl
+  exact ⟨h1, h2, h2 ▸ shunt_preserves_tokens_default true true false soundToks _ h1⟩
+/-! ### C01.6 continued — intercept insertion for formulas WITH `~` and `|` (token level)
+
+Vocabulary (`Proofs/C01Intercept.lean`): `IsSep c t` — `t` is an operator token whose text is exactly
+`c`; `Plain p` — no token of `p` is an operator token containing `~` or `|`, none is the literal
+value token `0`; `PlainTail '|' [(s₁,p₁),…]` — each `sᵢ` is an exact `|` token (each may carry its own
+source span), each `pᵢ` is plain; `plainGlue [(s₁,p₁),…] = [s₁] ++ p₁ ++ [s₂] ++ p₂ ++ …`;
+`oneGlue [(s₁,p₁),…] = [s₁, 1, +] ++ p₁ ++ [s₂, 1, +] ++ p₂ ++ …`; `StartsOk p` — `p` is not empty and
+does not start with a bare `+`/`-` operator token; `TopLevel l` — the brackets of `l` are balanced
+(what `find_rhs_index` tracks); `LhsOk l` — no `~` operator, no `0`, every `|`-carrying operator token
+of `l` is exactly `|`. `sepIns add next` is what is put behind a separator: nothing if `add = false`,
+else `1` followed by `+` unless `next` is a bare sign token or absent. -/
+section InterceptSeparators
+open FormulaicVerif.Proofs.C01Intercept
+
+/-- C01.6c  **One-sided multipart formula: an intercept in EVERY part.** For plain segments
+`p₀, …, pₙ` (`n ≥ 0`, `p₀` non-empty, the others non-empty and not starting with a bare sign),
+`p₀ | p₁ | … | pₙ` is rewritten to `1 + p₀ | 1 + p₁ | … | 1 + pₙ` (then adjacent sign tokens are
+merged); there are no left-hand-side tokens. -/
+theorem intercept_every_part (p₀ : List Tok) (tail : List (Tok × List Tok))
+    (hne : p₀ ≠ []) (h0 : Plain p₀) (ht : PlainTail '|' tail) (hst : ∀ sp ∈ tail, StartsOk sp.2) :
+    interceptTokens true (p₀ ++ plainGlue tail) =
+      (mergeSigns (tokOne :: tokPlus :: (p₀ ++ oneGlue tail)), []) :=
+  Proofs.C01Intercept.intercept_every_part p₀ tail hne h0 ht hst
+
+/-- C01.6d  **Two-sided formula: `1 +` in every right-hand part, nothing on the left.** For a
+balanced left-hand side `lhs` (no `~`, no `0`; it may contain exact `|` tokens), the exact `~` token
+`s`, and plain right-hand segments `p₀, …, pₙ` (`n ≥ 0`, each non-empty and not starting with a bare
+sign), `lhs ~ p₀ | … | pₙ` is rewritten to `lhs ~ 1 + p₀ | 1 + p₁ | … | 1 + pₙ`; the left-hand-side
+tokens reported are `lhs ++ [~]`. -/
+theorem intercept_every_rhs_part (lhs : List Tok) (s : Tok) (p₀ : List Tok) (tail : List (Tok × List Tok))
+    (hl : LhsOk lhs) (hb : TopLevel lhs) (hs : IsSep '~' s) (h0 : Plain p₀) (ht : PlainTail '|' tail)
+    (hs0 : StartsOk p₀) (hst : ∀ sp ∈ tail, StartsOk sp.2) :
+    interceptTokens true (lhs ++ s :: (p₀ ++ plainGlue tail)) =
+      (mergeSigns (lhs ++ s :: tokOne :: tokPlus :: (p₀ ++ oneGlue tail)), lhs ++ [s]) :=
+  Proofs.C01Intercept.intercept_every_rhs_part lhs s p₀ tail hl hb hs h0 ht hs0 hst
+
+/-- C01.6e  **No intercept in any part of a multipart left-hand side.** The left-hand side
+`l₀ | l₁ | … | lₘ` (plain segments, possibly empty, brackets balanced) is copied token for token;
+only the right-hand parts get `1 +`. -/
+theorem no_intercept_on_lhs (l₀ : List Tok) (ltail : List (Tok × List Tok)) (s : Tok) (p₀ : List Tok)
+    (tail : List (Tok × List Tok))
+    (hl0 : Plain l₀) (hlt : PlainTail '|' ltail) (hb : TopLevel (l₀ ++ plainGlue ltail))
+    (hs : IsSep '~' s) (h0 : Plain p₀) (ht : PlainTail '|' tail)
+    (hs0 : StartsOk p₀) (hst : ∀ sp ∈ tail, StartsOk sp.2) :
+    interceptTokens true ((l₀ ++ plainGlue ltail) ++ s :: (p₀ ++ plainGlue tail)) =
+      (mergeSigns ((l₀ ++ plainGlue ltail) ++ s :: tokOne :: tokPlus :: (p₀ ++ oneGlue tail)),
+       (l₀ ++ plainGlue ltail) ++ [s]) :=
+  Proofs.C01Intercept.intercept_every_rhs_part _ s p₀ tail (lhsOk_glue l₀ ltail hl0 hlt) hb hs h0 ht hs0 hst
+
+/-- C01.6f  The exact behaviour WITHOUT the side conditions on how segments start, for either
+configuration (`add` = `include_intercept`), one-sided: segments may be empty or start with a sign.
+In front: `1 +` (if `add`); behind every `|`: `sepIns add <the next token>` — `1`, and a `+` unless
+the next token is a bare `+`/`-` or there is none. -/
+theorem intercept_onesided_general (add : Bool) (p₀ : List Tok) (tail : List (Tok × List Tok))
+    (hne : p₀ ++ plainGlue tail ≠ []) (h0 : Plain p₀) (ht : PlainTail '|' tail) :
+    interceptTokens add (p₀ ++ plainGlue tail) =
+      (mergeSigns ((if add then [tokOne, tokPlus] else []) ++ (p₀ ++ insGlue add tail)), []) :=
+  Proofs.C01Intercept.intercept_onesided add p₀ tail hne h0 ht
+
+/-- C01.6g  … and two-sided: `1` (and the joining `+`) behind the `~` and behind every `|` of the
+right-hand side, nothing in the left-hand side, whatever the segments start with and whether or not
+they are empty. -/
+theorem intercept_twosided_general (add : Bool) (lhs : List Tok) (s : Tok) (p₀ : List Tok)
+    (tail : List (Tok × List Tok))
+    (hl : LhsOk lhs) (hb : TopLevel lhs) (hs : IsSep '~' s) (h0 : Plain p₀) (ht : PlainTail '|' tail) :
+    interceptTokens add (lhs ++ s :: (p₀ ++ plainGlue tail)) =
+      (mergeSigns (lhs ++ s :: (sepIns add (p₀ ++ plainGlue tail).head? ++ (p₀ ++ insGlue add tail))),
+       lhs ++ [s]) :=
+  Proofs.C01Intercept.intercept_twosided add lhs s p₀ tail hl hb hs h0 ht
+
+/-- C01.6h  **A parser configured without the implicit intercept inserts nothing**, in any of these
+shapes and more generally: for EVERY token list whose `~`/`|`-carrying operator tokens are exactly
+`~` / `|` (any number of them, anywhere, brackets balanced or not), the rewriting is the zero rule
+followed by the merging of adjacent sign tokens. -/
+theorem no_intercept_configured (ts : List Tok)
+    (h : ∀ t ∈ ts, t.kind = some .operator →
+      (t.text.contains '~' = true → t.text = ['~']) ∧ (t.text.contains '|' = true → t.text = ['|'])) :
+    (interceptTokens false ts).1 = mergeSigns (replaceZero ts) :=
+  Proofs.C01Intercept.no_intercept_configured ts h
+
+/-- C01.6i  **The zero rule.** `replace_tokens` turns every literal value token `0` into the two
+tokens `-` `1` (operator, value) and keeps every other token and the order; it is the first step of
+the rewriting, which therefore cannot tell `0` from `- 1`: `a + 0` is rewritten exactly as
+`a + - 1` is (the `+` `-` pair is then merged into one operator token `+-`, which the shunting-yard's
+sign collapsing reads as `-`), and the evaluator's set difference removes the intercept. Segments
+containing `0`s are covered by the theorems above after this replacement
+(`Proofs.C01Intercept.interceptTokens_zero_twosided`, `plain_replaceZero`). -/
+theorem zero_rewrites (add : Bool) (ts : List Tok) :
+    replaceZero ts = ts.flatMap (fun t => if IsZero t then [tokMinus, tokOne] else [t]) ∧
+    interceptTokens add ts = interceptTokens add (replaceZero ts) :=
+  ⟨replaceZero_eq_flatMap ts, (interceptTokens_replaceZero add ts).symm⟩
+
+private def nm (s : String) : Tok := Tok.synth s .name
+private def op (s : String) : Tok := Tok.synth s .operator
+private def cx (s : String) : Tok := Tok.synth s .context
+private def zero : Tok := Tok.synth "0" .value
+private def bar2 : Tok := { text := ['|'], kind := some .operator, start := some 7, stop := some 7 }
+
+/-- non-vacuity: `a | b | c : d` satisfies the hypotheses (two different `|` tokens), giving
+`1 + a | 1 + b | 1 + c : d` -/
+example : interceptTokens true [nm "a", op "|", nm "b", bar2, nm "c", op ":", nm "d"] =
+    ([tokOne, tokPlus, nm "a", op "|", tokOne, tokPlus, nm "b", bar2, tokOne, tokPlus, nm "c", op ":", nm "d"], []) :=
+  intercept_every_part [nm "a"] [(op "|", [nm "b"]), (bar2, [nm "c", op ":", nm "d"])]
+    (by decide) (by decide) (by decide) (by decide)
+
+/-- non-vacuity: `(y) | z ~ a | b`: the lhs with a bracket and two parts gets nothing -/
+example : interceptTokens true [cx "(", nm "y", cx ")", op "|", nm "z", op "~", nm "a", bar2, nm "b"] =
+    ([cx "(", nm "y", cx ")", op "|", nm "z", op "~", tokOne, tokPlus, nm "a", bar2, tokOne, tokPlus, nm "b"],
+     [cx "(", nm "y", cx ")", op "|", nm "z", op "~"]) :=
+  no_intercept_on_lhs [cx "(", nm "y", cx ")"] [(op "|", [nm "z"])] (op "~") [nm "a"] [(bar2, [nm "b"])]
+    (by decide) (by decide) (by decide) (by decide) (by decide) (by decide) (by decide) (by decide)
+
+example : (interceptTokens false [nm "y", op "~", nm "a", op "|", zero]).1
+    = [nm "y", op "~", nm "a", op "|", tokMinus, tokOne] :=
+  no_intercept_configured _ (by decide)
+
+/-- corner (why `StartsOk`): a right-hand side starting with a bare sign gets `1` but NO joining `+`:
+`y ~ - a` ↦ `y ~ 1 - a`, whereas the one-sided `- a` ↦ `1 +- a` (one merged operator token) -/
+example : (interceptTokens true [nm "y", op "~", op "-", nm "a"]).1 = [nm "y", op "~", tokOne, op "-", nm "a"]
+    ∧ (interceptTokens true [op "-", nm "a"]).1 = [tokOne, op "+-", nm "a"] := by decide
+
+/-- corner (empty segments): `a | | b` ↦ `1 + a | 1 + | 1 + b`; a trailing separator gets a bare `1`:
+`y ~` ↦ `y ~ 1`, `a |` ↦ `1 + a | 1`; the empty formula ↦ `1` -/
+example : (interceptTokens true [nm "a", op "|", bar2, nm "b"]).1
+      = [tokOne, tokPlus, nm "a", op "|", tokOne, tokPlus, bar2, tokOne, tokPlus, nm "b"]
+    ∧ interceptTokens true [nm "y", op "~"] = ([nm "y", op "~", tokOne], [nm "y", op "~"])
+    ∧ interceptTokens true [nm "a", op "|"] = ([tokOne, tokPlus, nm "a", op "|", tokOne], [])
+    ∧ interceptTokens true [] = ([tokOne], []) := by decide
+
+/-- corner (why `TopLevel`): a `~` inside brackets is not the formula's separator — the formula is
+one-sided (`1 +` in front, no lhs tokens) and ANOTHER `1 +` follows the inner `~` -/
+example : interceptTokens true [cx "(", nm "y", op "~", nm "a", cx ")"]
+    = ([tokOne, tokPlus, cx "(", nm "y", op "~", tokOne, tokPlus, nm "a", cx ")"], []) := by decide
+
+/-- corner (several `~`): every `~` is followed by `1 +`; the lhs ends at the first top-level one -/
+example : interceptTokens true [nm "y", op "~", nm "a", op "~", nm "b"]
+    = ([nm "y", op "~", tokOne, tokPlus, nm "a", op "~", tokOne, tokPlus, nm "b"], [nm "y", op "~"]) := by decide
+
+/-- the zero rule on tokens: `a + 0` ↦ `1 + a +- 1`; `y ~ 0 + a` ↦ `y ~ 1 - 1 + a` (the `- 1` that
+replaces `0` is a bare sign, so no joining `+`) -/
+example : (interceptTokens true [nm "a", op "+", zero]).1 = [tokOne, tokPlus, nm "a", op "+-", tokOne]
+    ∧ (interceptTokens true [nm "y", op "~", zero, op "+", nm "a"]).1
+      = [nm "y", op "~", tokOne, tokMinus, tokOne, tokPlus, nm "a"] := by decide
+
+private def runTokens (add : Bool) (ts : List Tok) : Except ParseErr Val :=
+  match tokensToAst (Gen.defaultTable true true false) (interceptTokens add ts).1 with
+  | .error e => .error e
+  | .ok none => .ok (.set [])
+  | .ok (some a) => evalAst { available := none, usedLhs := [] } a
+
+/-- … and through the shunting-yard and the evaluator (live operator table): with the implicit
+intercept, `a + 0` and `a - 1` denote what `a` denotes without it, and `y ~ 0 + a` what `y ~ a` does -/
+example : runTokens true [nm "a", op "+", zero] = runTokens false [nm "a"]
+    ∧ runTokens true [nm "a", op "-", tokOne] = runTokens false [nm "a"]
+    ∧ runTokens true [nm "y", op "~", zero, op "+", nm "a"] = runTokens false [nm "y", op "~", nm "a"] :=
+  ⟨rfl, rfl, rfl⟩
+
+end InterceptSeparators
 
 end FormulaicVerif.Props.C01
